@@ -401,6 +401,112 @@ theorem hook_asked_only_when_listed (c : Cfg) (s : St) (i : Inp) (h : stepAsksHo
   have := engineAsksHook_spec c _ i h.2
   exact ⟨this.1, this.2.1, h.1.2⟩
 
+/-! ## The loader: the policy the runtime sees is the policy written -/
+
+/-- the default list of restartable exit reasons of `flowir.py` is exactly `[ResourceExhausted]` -/
+theorem pin_default_hook_on : defaultHookOn = [.resourceExhausted] := by decide
+
+/-- `explicit_list_preserved`: a `restartHookOn` that is written — the empty list included — reaches the runtime
+unchanged … -/
+theorem explicit_list_preserved (w : Written) (l : List Reason) (h : w.hookOn = some l) : (load w).hookOn = l := by
+  simp [load, h]
+
+/-- … and only a missing list gets the default. -/
+theorem only_missing_list_gets_default (w : Written) :
+    (w.hookOn = none ∧ (load w).hookOn = defaultHookOn) ∨ w.hookOn = some (load w).hookOn := by
+  cases h : w.hookOn <;> simp [load, h]
+
+/-- `maxRestarts` (0 included) and `restartHookFile` ('' included) are seen as written -/
+theorem load_keeps_max_and_hook_file (w : Written) :
+    (load w).maxRestarts = w.maxRestarts ∧ (load w).hookFile = w.hookFile := ⟨rfl, rfl⟩
+
+/-- the budget of the loaded policy is the written one: the written maximum if there is one, else unlimited exactly
+when a non-empty hook file name is written, else the default of three -/
+theorem loaded_budget (w : Written) (sim rep : Bool) (m : HookModule) :
+    effMax ((load w).cfg sim rep m) =
+      match w.maxRestarts with
+      | some k => k
+      | none => if (match w.hookFile with | some f => f != "" | none => false) then C12.unlimited else 3 := by
+  cases hm : w.maxRestarts with
+  | some k => simp [effMax, load, Seen.cfg, hm]
+  | none =>
+    simp only [effMax, load, Seen.cfg, hm]
+    split <;> simp_all [C12.defaultMaxRestarts, C12.defaultMaxRestartsWithHookFile, C12.unlimited]
+
+/-- `only_written_reasons`: through the loader, the task is started again only for an exit reason the component
+WROTE in `restartHookOn` (for the default `[ResourceExhausted]` when it wrote no list) or a failed submission. -/
+theorem only_written_reasons (fin : Bool) (w : Written) (sim rep : Bool) (m : HookModule) (s : St) (inps : List Inp) :
+    ∀ e ∈ exec fin ((load w).cfg sim rep m) s inps, e.code = .initiated →
+      e.reason = .submissionFailed ∨ e.reason ∈ w.hookOn.getD defaultHookOn := by
+  intro e he hi
+  have h := only_listed_reasons fin _ s inps e he hi
+  cases hw : w.hookOn <;> simpa [load, Seen.cfg, hw] using h
+
+/-- `empty_list_never_restarts`: a component that writes `restartHookOn: []` is never restarted (re-submissions after
+failed submissions apart), whatever its hook, its budget, the stability of the system. -/
+theorem empty_list_never_restarts (fin : Bool) (w : Written) (sim rep : Bool) (m : HookModule) (s : St)
+    (inps : List Inp) (h : w.hookOn = some []) :
+    ∀ e ∈ exec fin ((load w).cfg sim rep m) s inps, e.isRestart = false := by
+  intro e he
+  have h1 := only_written_reasons fin w sim rep m s inps e he
+  simp only [h, Option.getD_some, List.not_mem_nil, or_false] at h1
+  cases hc : decide (e.code = .initiated) with
+  | false => simp [Ev.isRestart, hc]
+  | true =>
+    have := h1 (by simpa using hc)
+    simp [Ev.isRestart, this]
+
+/-! ## Several components of one experiment: every component is judged by its own policy and its own hook file -/
+
+private theorem mexec_cons (fin : Bool) (files : String → HookAns) (cf : Nat → MCfg) (ss : Nat → St) (m : MInp)
+    (ms : List MInp) :
+    mexec fin files cf ss (m :: ms) =
+      (m.comp, (mstep fin files cf ss m).2) :: mexec fin files cf (mstep fin files cf ss m).1 ms := rfl
+
+/-- `component_decisions_independent`: in any interleaved history of exits of any number of components, the events
+of component `k` (codes, counters, final state) are exactly those of `k` running alone on its own exits answered by
+its own hook file — the restarts of the other components, their hook files and their order do not matter. -/
+theorem component_decisions_independent (fin : Bool) (files : String → HookAns) (cf : Nat → MCfg) (k : Nat)
+    (ss : Nat → St) (ms : List MInp) :
+    eventsOf k (mexec fin files cf ss ms) = exec fin (cf k).cfg (ss k) (ownInps files cf k ms) := by
+  induction ms generalizing ss with
+  | nil => simp [mexec, eventsOf, ownInps, exec_nil]
+  | cons m ms ih =>
+    rw [mexec_cons]
+    by_cases hk : m.comp = k
+    · subst hk
+      have := ih (mstep fin files cf ss m).1
+      simp only [eventsOf, ownInps, List.filter_cons, beq_self_eq_true, if_true, List.map_cons] at this ⊢
+      rw [exec_cons, this]
+      simp [mstep, ownInp]
+    · have := ih (mstep fin files cf ss m).1
+      have hb : (m.comp == k) = false := by simpa using hk
+      have hk' : ¬ k = m.comp := fun h => hk h.symm
+      simp only [eventsOf, ownInps, List.filter_cons, hb] at this ⊢
+      simpa [mstep, hk'] using this
+
+/-- … in particular they depend on the contents of no hook file but the component's own. -/
+theorem depends_only_on_own_hook_file (fin : Bool) (files files' : String → HookAns) (cf : Nat → MCfg) (k : Nat)
+    (ss : Nat → St) (ms : List MInp) (h : files (cf k).hookFile = files' (cf k).hookFile) :
+    eventsOf k (mexec fin files cf ss ms) = eventsOf k (mexec fin files' cf ss ms) := by
+  rw [component_decisions_independent, component_decisions_independent]
+  simp [ownInps, ownInp, h]
+
+/-- `own_refusing_file_never_restarts`: a component (plain engine, hook module imported fine) whose OWN hook file
+refuses is never started again at an exit other than a failed submission, whatever the other components' hook files
+answer and whenever they restarted. -/
+theorem own_refusing_file_never_restarts (fin : Bool) (files : String → HookAns) (cf : Nat → MCfg) (k : Nat)
+    (ss : Nat → St) (ms : List MInp) (hrep : (cf k).cfg.repeating = false) (hsim : (cf k).cfg.simulator = false)
+    (hm : (cf k).cfg.hookModule = .scripted) (hr : (files (cf k).hookFile).refuses = true)
+    (hsf : ∀ m ∈ ms, m.comp = k → m.inp.reason ≠ .submissionFailed) :
+    ∀ e ∈ eventsOf k (mexec fin files cf ss ms), e.code ≠ .initiated := by
+  rw [component_decisions_independent]
+  refine (refusing_hooks_never_restart fin (cf k).cfg (ss k) _ hrep hsim hm ?_).1
+  intro i hi
+  simp only [ownInps, List.mem_map, List.mem_filter, beq_iff_eq] at hi
+  obtain ⟨m, ⟨hm1, hm2⟩, rfl⟩ := hi
+  exact ⟨hsf m hm1 hm2, hr⟩
+
 /-! ## Non-vacuity: the hypotheses are met by concrete, non-trivial inputs -/
 
 private def hookYes : Inp := ⟨.knownIssue, .ctx .possible, false, false, true, .task⟩
@@ -447,5 +553,22 @@ example : (exec true cfgNamedHook St.init [hookYes, hookYes, hookYes, hookYes, h
 example : (exec false cfgDefault St.init [hookFailed, hookRaises, hookNo]).map (·.code) =
     [.couldNotInitiate, .couldNotInitiate, .couldNotInitiate] := by decide
 example : effMax ⟨none, true, [], false, false, .fallback⟩ = C12.unlimited := by decide
+
+/-! non-vacuity of the loader and several-components theorems -/
+private def wEmpty : Written := ⟨none, none, some []⟩
+private def wMissing : Written := ⟨some 0, some "", none⟩
+private def exhaustedI : Inp := ⟨.resourceExhausted, .ctx .possible, false, false, true, .task⟩
+example : (load wEmpty).hookOn = [] ∧ (load wMissing).hookOn = [.resourceExhausted] ∧
+    (load wMissing).maxRestarts = some 0 ∧ (load wMissing).hookFile = some "" := by decide
+example : (exec true ((load wEmpty).cfg false false .scripted) St.init [exhaustedI]).map (·.code) = [.couldNotInitiate] ∧
+    (exec true ((load ⟨none, none, none⟩).cfg false false .scripted) St.init [exhaustedI]).map (·.code) = [.initiated] := by
+  decide
+private def twoFiles : String → HookAns := fun f => if f = "allow.py" then .ctx .possible else .ctx .notPossible
+private def twoComps : Nat → MCfg := fun k =>
+  ⟨⟨none, true, [.resourceExhausted], false, false, .scripted⟩, if k = 0 then "allow.py" else "refuse.py"⟩
+example : (mexec true twoFiles twoComps (fun _ => St.init) [⟨0, exhaustedI⟩, ⟨1, exhaustedI⟩, ⟨0, exhaustedI⟩]).map
+    (fun e => (e.1, e.2.code, e.2.st.shutdown)) =
+    [(0, .initiated, false), (1, .couldNotInitiate, true), (0, .initiated, false)] := by decide
+example : (twoFiles (twoComps 1).hookFile).refuses = true ∧ (twoComps 1).cfg.hookModule = .scripted := by decide
 
 end St4sd.C12
